@@ -322,19 +322,41 @@ def claims(tier):
         return f
 
     for k in ks:
-        par = {"k": k, "pool": pool}
-        b = "pre-state: %d notes, names from %r (enumerated), octaves symbolic %d..%d, strictly increasing pitch" % (k, pool, OL, OH)
-        heavy = k == 3
-        sh = [None] if not heavy else list(range(np_))
+        # thorough: k <= 2 over the 21-name pool, sharded by the first pre-state name; k == 3 over the first six
+        # boundary spellings, sharded by the first name, for the operations whose outcome depends on all notes
+        kpool = pool if k < 3 else pool[:6]
+        npk = len(kpool)
+        par = {"k": k, "pool": kpool}
+        b = "pre-state: %d notes, names from %r (enumerated), octaves symbolic %d..%d, strictly increasing pitch" % (k, kpool, OL, OH)
+        shard = (not q and k == 2) or k == 3
+        sh = [None] if not shard else list(range(npk))
         for s0 in sh:
             tag = "" if s0 is None else ",i1=%d" % s0
             extra = (lambda i1: True) if s0 is None else (lambda i1, s0=s0: i1 == s0)
-            cl.append(Claim("add_bare[k=%d%s]" % (k, tag), c12_add_bare, params=par, group="c12_add_bare", pre=[pre_k(k), extra, lambda j: 0 <= j < np_], timeout=1200 if q else 3000, bounds=b + "; op add_note(bare name from the pool)"))
+
+            def prek(k=k, npk=npk):
+                def f(i1, i2, i3, o1, o2, o3):
+                    ok = True
+                    for idx, (i, o) in enumerate(((i1, o1), (i2, o2), (i3, o3))):
+                        if idx < k:
+                            ok = ok and 0 <= i < npk and OL <= o <= OH
+                        else:
+                            ok = ok and i == 0 and o == 0
+                    return ok
+
+                return f
+
+            cl.append(Claim("add_bare[k=%d%s]" % (k, tag), c12_add_bare, params=par, group="c12_add_bare", pre=[prek(), extra, lambda j, npk=npk: 0 <= j < npk], timeout=1200 if q else 3000, bounds=b + "; op add_note(bare name from the pool)"))
             for fm in range(5):
-                cl.append(Claim("add_explicit[k=%d%s,form=%d]" % (k, tag, fm), c12_add_explicit, params=par, pre=[pre_k(k), extra, lambda j, oj, form, fm=fm: 0 <= j < np_ and 0 <= oj <= 9 and form == fm], timeout=1200 if q else 3000, bounds=b + "; op %s, octave symbolic 0..9" % ["add_note(name, octave)", "add_note(Note)", "add_notes([[name, oct]])", "add_notes(Note)", "+ Note"][fm]))
+                if k == 3 and fm not in (0, 1):
+                    continue
+                cl.append(Claim("add_explicit[k=%d%s,form=%d]" % (k, tag, fm), c12_add_explicit, params=par, pre=[prek(), extra, lambda j, oj, form, fm=fm, npk=npk: 0 <= j < npk and 0 <= oj <= 9 and form == fm], timeout=1200 if q else 3000, bounds=b + "; op %s, octave symbolic 0..9" % ["add_note(name, octave)", "add_note(Note)", "add_notes([[name, oct]])", "add_notes(Note)", "+ Note"][fm]))
             for fm in range(6):
-                cl.append(Claim("remove[k=%d%s,form=%d]" % (k, tag, fm), c12_remove, params=par, pre=[pre_k(k), extra, lambda j, oj, form, fm=fm: 0 <= j < np_ and 0 <= oj <= 9 and form == fm], timeout=1200 if q else 3000, bounds=b + "; op %s" % ["remove_note(name)", "remove_note(name, octave)", "remove_note(Note)", "remove_notes([name, Note])", "- name", "- Note"][fm]))
-            cl.append(Claim("queries[k=%d%s]" % (k, tag), c12_queries, params=par, pre=[pre_k(k), extra, lambda j, oj: 0 <= j < np_ and 0 <= oj <= 9], timeout=1200 if q else 3000, bounds=b + "; len, in, ==, get_note_names, four consonance predicates (flag symbolic)"))
+                if k == 3 and fm not in (0, 1, 2):
+                    continue
+                cl.append(Claim("remove[k=%d%s,form=%d]" % (k, tag, fm), c12_remove, params=par, pre=[prek(), extra, lambda j, oj, form, fm=fm, npk=npk: 0 <= j < npk and 0 <= oj <= 9 and form == fm], timeout=1200 if q else 3000, bounds=b + "; op %s" % ["remove_note(name)", "remove_note(name, octave)", "remove_note(Note)", "remove_notes([name, Note])", "- name", "- Note"][fm]))
+            if k < 3:
+                cl.append(Claim("queries[k=%d%s]" % (k, tag), c12_queries, params=par, pre=[prek(), extra, lambda j, oj, npk=npk: 0 <= j < npk and 0 <= oj <= 9], timeout=1200 if q else 3000, bounds=b + "; len, in, ==, get_note_names, four consonance predicates (flag symbolic)"))
     par = {"k": 2, "pool": pool[:3] if q else pool[:6]}
     npp = len(par["pool"])
     for fm in range(5):
